@@ -731,7 +731,9 @@ C("_prepare_metadata_pdu", arg_types=SELF, props=("C07", "C08"), result=None,
   effects=set(), modular=False)
 
 
-C("_handle_segment_req", arg_types={**SELF, "segment_req": T.Pair}, props=("C08",), result=None,
+# (C07 too: a re-transmitted File Data PDU is a File Data PDU of the stream - it carries the file's bytes at its offset and is no
+# longer than the effective segment length; that is the per-iteration obligation of the loop)
+C("_handle_segment_req", arg_types={**SELF, "segment_req": T.Pair}, props=("C08", "C07"), result=None,
   requires=REQ_INV + [("active", active_with_file),
                       ("seglen_bound", lambda o: o.self._params.fp.segment_len <= 65527),
                       ("unsigned_offsets", lambda o: And_(o.segment_req[0] >= 0, o.segment_req[1] >= 0))],
@@ -748,7 +750,7 @@ C("_handle_segment_req", arg_types={**SELF, "segment_req": T.Pair}, props=("C08"
   ],
   raises=[RaiseClause("C08.invalid_request_rejected", X.InvalidNakPdu, when=_req_invalid, iff=True, props=("C08",),
                       modifies=[], post=lambda o, n: len(n.trace) == 0)],
-  loops={0: LoopSpec(_sr_loop_inv, modifies=QMOD, props=("C08",), body_post=_sr_body_post,
+  loops={0: LoopSpec(_sr_loop_inv, modifies=QMOD, props=("C08", "C07"), body_post=_sr_body_post,
                      variant=lambda I, env, idx, n: env.missing_chunk_len)},
   effects={"vfs"}, modular=True)
 CONTRACTS[-1].inline_callees = {"SourceHandler._prepare_file_data_pdu", "SourceHandler._prepare_metadata_pdu"}
